@@ -81,6 +81,8 @@ func genDoc(r *Rng, maxLen int) []byte {
 		doc = deepNest(r)
 	case x < 98:
 		doc = cardinality(r)
+	case x < 99:
+		doc = refdefTabs(r)
 	default:
 		doc = classLines(r)
 	}
@@ -631,7 +633,7 @@ func cardKey(kind string, i int) string {
 		if i < len(realEntities) {
 			return "&" + realEntities[i] + ";"
 		}
-		return "&zq" + strconv.Itoa(i) + ";" // well-formed, unknown name
+		return "&z" + strconv.FormatInt(int64(i), 36) + ";" // well-formed, unknown name
 	case "numeric":
 		if i%2 == 0 {
 			return "&#" + strconv.Itoa(33+i*37) + ";"
@@ -655,13 +657,23 @@ func cardKey(kind string, i int) string {
 
 var cardKinds = []string{"entity", "entity", "entity", "numeric", "label", "label", "dest", "autolink", "tag", "tag", "info", "word"}
 
-func cardinality(r *Rng) []byte {
+func cardinality(r *Rng) []byte { return cardinalityN(r, r.Chance(0.3)) }
+
+// cardinalityN: volume = 150-500 keys, 85 % of them practically unique in the
+// life of a process (pool of 2^30) and 15 % from a hot set of 24 that every
+// such document shares.  A few thousand-entry cache then rotates every few
+// evaluations, and the hot keys are looked up again right after each rotation
+// - by several tasks of the same scenario when the rotation falls inside it.
+func cardinalityN(r *Rng, volume bool) []byte {
 	var sb strings.Builder
 	kinds := []string{r.Pick(cardKinds)}
 	if r.Chance(0.4) {
 		kinds = append(kinds, r.Pick(cardKinds))
 	}
 	n := []int{4, 8, 16, 30, 60}[r.Intn(5)]
+	if volume {
+		n = []int{150, 300, 500}[r.Intn(3)]
+	}
 	// a window of the pool: neighbouring evaluations overlap in part
 	base := r.Intn(600)
 	width := []int{n, 2 * n, 150, 600}[r.Intn(4)]
@@ -670,6 +682,13 @@ func cardinality(r *Rng) []byte {
 	for i := 0; i < n; i++ {
 		kind := kinds[i%len(kinds)]
 		k := (base + r.Intn(width)) % 600
+		if volume {
+			if r.Chance(0.15) {
+				k = r.Intn(24)
+			} else {
+				k = 600 + r.Intn(1<<30)
+			}
+		}
 		key := cardKey(kind, k)
 		switch kind {
 		case "label":
@@ -704,6 +723,67 @@ func cardinality(r *Rng) []byte {
 	sb.WriteString("\n\n")
 	for _, d := range defs {
 		sb.WriteString(d + "\n")
+	}
+	return []byte(sb.String())
+}
+
+// ---- multi-line link reference definitions inside containers, with tabs and NULs
+//
+// The scan that decides whether a paragraph starts with link reference
+// definitions reads across line boundaries through a reader that skips
+// container prefixes, expands partially consumed tabs into indent nodes of
+// width 1-3 and counts padded NUL bytes.  Those three mechanisms only meet in
+// a paragraph that (1) starts like a definition, (2) continues on a line whose
+// leading tab the container consumes in part, and (3) has a NUL further on.
+func refdefTabs(r *Rng) []byte {
+	type cont struct{ first, rest string }
+	conts := []cont{
+		{">", ">"}, {"> ", "> "}, {">>", ">>"}, {">>>", ">>>"}, {">>>>", ">>>>"}, {" >", " >"}, {"  >", "  >"}, {"   >", "   >"},
+		{"- ", "  "}, {"-  ", "   "}, {"1. ", "   "}, {"10. ", "    "}, {"100. ", "     "}, {"100. ", "    "}, {"  - ", "    "},
+		{"> - ", ">   "}, {"> 1. ", ">    "}, {"- > ", "  > "}, {"", ""}, {"", " "}, {"", "   "},
+	}
+	c := conts[r.Intn(len(conts))]
+	var sb strings.Builder
+	piece := func() string {
+		return r.Pick([]string{"a", "b c", "\x00", "\x00\x00", "x\x00", "\t", " ", "\\]", "\\", "é", "foo", "[", "*", "`", "&amp;", "<", ">"})
+	}
+	tabs := func() string {
+		return r.Pick([]string{"\t", " \t", "  \t", "   \t", "    \t", "\t\t", "\t ", "", " ", "    "})
+	}
+	nl := r.Range(2, 5)
+	part := 0 // 0 label, 1 destination, 2 title, 3 after
+	sb.WriteString(c.first + "[")
+	for line := 0; line < nl; line++ {
+		if line > 0 {
+			rest := c.rest
+			if r.Chance(0.15) {
+				rest = "" // lazy continuation
+			}
+			sb.WriteString(rest + tabs())
+		}
+		for k := r.Range(0, 4); k > 0; k-- {
+			sb.WriteString(piece())
+		}
+		if r.Chance(0.45) {
+			switch part {
+			case 0:
+				sb.WriteString("]:" + r.Pick([]string{" ", "", "\t", "  "}))
+				part = 1
+			case 1:
+				sb.WriteString(r.Pick([]string{"/u", "</d e\x00st>", "<>", "/u\x00", "/p(a)"}) + r.Pick([]string{" ", "", "\t"}))
+				part = 2
+			case 2:
+				sb.WriteString(r.Pick([]string{"'t", "\"ti\x00tle", "(t", "'t'", "\"t\" x"}))
+				part = 3
+			}
+		}
+		sb.WriteString(r.Pick([]string{"\n", "\n", "\n", "\r\n", "\r", " \n", "\\\n"}))
+	}
+	if r.Chance(0.5) {
+		sb.WriteString(r.Pick([]string{"'", "\"", ")", "]: /u", ""}) + "\n")
+	}
+	if r.Chance(0.5) {
+		sb.WriteString("\n" + c.first + "[a] after\n")
 	}
 	return []byte(sb.String())
 }
